@@ -82,6 +82,35 @@ def trait_inst(name, prop, expr, expect, tag, tier, note=''):
                 note=note or 'type trait of the real class, computed by g++ in the facts program')
 
 
+def base_at_offset_zero_inst(name, prop, backends, tier):
+    """premise of lowering L-this and of the library's own reinterpret_casts between rlbox_sandbox<B>* and B* (the backend records
+    the executing sandbox as a B*, the callback interceptor casts it back): the backend base subobject lies at offset 0 of
+    rlbox_sandbox<B>.  Evaluated by g++ in the facts program on the real classes; asserted in the harness"""
+    from vlib.unit import Inst
+    facts, asserts = {}, ''
+    for b in backends:
+        k = 'BASE_AT_0_' + b.replace('::', '_')
+        facts[k] = ('(unsigned long)((%s*)(reinterpret_cast<rlbox::rlbox_sandbox<%s>*>(0x10000))) == 0x10000UL && !std::is_polymorphic_v<rlbox::rlbox_sandbox<%s>>' % (b, b, b), 'int')
+        asserts += '  __CPROVER_assert(%s == 1, "[clause:backend_base_subobject_of_%s_at_offset_0] rlbox_sandbox<B>* and B* designate the same address");\n' % (k, b.replace('::', '_'))
+    return Inst(name, 'int unused_', 'return unused_ == unused_;', [('trivial', '__CPROVER_ensures($ret == 1)'), ('frame', '__CPROVER_assigns()')],
+                asserts + '  int in_x; _Bool r = $ROOT(in_x);\n', leaves=[], prop=prop, tier=tier, pre=PRE_GHOST, ret='bool', root_pick=lambda tu, fn: fn, facts=facts,
+                note='layout fact of the real classes (g++), premise of the pointer casts between the sandbox object and its backend base')
+
+
+def access_fact_inst(name, prop, facts, tier, note=''):
+    """facts about what application code can do with a class (constructors reachable or not): each (tag, C++ bool expression) is
+    evaluated by g++ WITH access control on the real headers and asserted to be 1 in the harness"""
+    from vlib.unit import Inst
+    fd, asserts = {}, ''
+    for tag, expr in facts:
+        k = 'AC_' + tag
+        fd[k] = (expr, 'int')
+        asserts += '  __CPROVER_assert(%s == 1, "[clause:%s] access fact of the real classes");\n' % (k, tag)
+    return Inst(name, 'int unused_', 'return unused_ == unused_;', [('trivial', '__CPROVER_ensures($ret == 1)'), ('frame', '__CPROVER_assigns()')],
+                asserts + '  int in_x; _Bool r = $ROOT(in_x);\n', leaves=[], prop=prop, tier=tier, pre=PRE_GHOST, ret='bool', root_pick=lambda tu, fn: fn, facts=fd,
+                note=note or 'access facts of the real classes (g++, access control on)')
+
+
 def idx_value(kind, idx, arg):
     """C expression (mathint) of an index operand passed by pointer `arg` with the given wrapper kind"""
     if kind == 'plain':
